@@ -149,6 +149,9 @@ func c08GenTasks(rt *rapid.T, free bool) []c08Task {
 		stopAt = rapid.IntRange(0, n-1).Draw(rt, "failAt2") // second failing task
 	}
 	readHeavy := rapid.IntRange(0, 4).Draw(rt, "readHeavy") == 0
+	if readHeavy && rapid.IntRange(0, 1).Draw(rt, "hotKeys") == 0 {
+		nk = 1 + nk%2 // W R R R W R R ... on one or two keys
+	}
 	tasks := make([]c08Task, n)
 	for i := range tasks {
 		cnt := rapid.IntRange(0, 3).Draw(rt, "nk")
